@@ -1,0 +1,507 @@
+//! Read-only accessors used by the external verification harness (feature `verif-hooks`).
+//!
+//! Everything here returns plain data (strings, `f64`, `(i128, i128)` rationals) so that the
+//! harness does not depend on crate-private types. Nothing in this module changes behaviour.
+
+use crate::Context;
+use crate::ast;
+use crate::prefix::Prefix;
+use crate::prefix_parser::PrefixParserResult;
+use crate::quantity::Quantity;
+use crate::typechecker::type_scheme::TypeScheme;
+use crate::typed_ast::{self, DTypeFactor, Type};
+use crate::unit::{Unit, UnitFactor};
+use crate::value::{FunctionReference, Value};
+
+pub type VRational = (i128, i128);
+
+#[derive(Debug, Clone, Copy, PartialEq, Eq, Hash, PartialOrd, Ord)]
+pub enum VPrefix {
+    Metric(i32),
+    Binary(i32),
+}
+
+impl From<Prefix> for VPrefix {
+    fn from(p: Prefix) -> Self {
+        match p {
+            Prefix::Metric(n) => VPrefix::Metric(n),
+            Prefix::Binary(n) => VPrefix::Binary(n),
+        }
+    }
+}
+
+#[derive(Debug, Clone, PartialEq)]
+pub struct VFactor {
+    pub prefix: VPrefix,
+    /// primary name of the unit (the name in its `unit` statement)
+    pub unit: String,
+    /// name used for display
+    pub canonical: String,
+    pub canonical_accepts_short: bool,
+    pub canonical_accepts_long: bool,
+    pub is_base: bool,
+    pub exponent: VRational,
+}
+
+fn factor(f: &UnitFactor) -> VFactor {
+    VFactor {
+        prefix: f.prefix.into(),
+        unit: f.unit_id.name.to_string(),
+        canonical: f.unit_id.canonical_name.name.to_string(),
+        canonical_accepts_short: f.unit_id.canonical_name.accepts_prefix.short,
+        canonical_accepts_long: f.unit_id.canonical_name.accepts_prefix.long,
+        is_base: f.unit_id.is_base(),
+        exponent: (*f.exponent.numer(), *f.exponent.denom()),
+    }
+}
+
+fn factors(u: &Unit) -> Vec<VFactor> {
+    u.iter().map(factor).collect()
+}
+
+#[derive(Debug, Clone, PartialEq)]
+pub struct VQuantity {
+    pub value: f64,
+    pub factors: Vec<VFactor>,
+    pub can_simplify: bool,
+    pub unit_display: String,
+}
+
+#[derive(Debug, Clone, PartialEq)]
+pub enum VValue {
+    Quantity(VQuantity),
+    Bool(bool),
+    String(String),
+    DateTime(String),
+    Function(String),
+    FormatSpecifiers(Option<String>),
+    Struct(String, Vec<(String, VValue)>),
+    List(Vec<VValue>),
+}
+
+pub fn quantity(q: &Quantity) -> VQuantity {
+    VQuantity {
+        value: q.unsafe_value().to_f64(),
+        factors: factors(q.unit()),
+        can_simplify: q.can_simplify(),
+        unit_display: q.unit().to_string(),
+    }
+}
+
+pub fn value(v: &Value) -> VValue {
+    match v {
+        Value::Quantity(q) => VValue::Quantity(quantity(q)),
+        Value::Boolean(b) => VValue::Bool(*b),
+        Value::String(s) => VValue::String(s.to_string()),
+        Value::DateTime(dt) => VValue::DateTime(dt.to_string()),
+        Value::FunctionReference(r) => VValue::Function(match r {
+            FunctionReference::Foreign(n) => format!("foreign:{n}"),
+            FunctionReference::Normal(n) => format!("normal:{n}"),
+            FunctionReference::TzConversion(n) => format!("tz:{n}"),
+        }),
+        Value::FormatSpecifiers(s) => VValue::FormatSpecifiers(s.as_ref().map(|s| s.to_string())),
+        Value::StructInstance(info, values) => VValue::Struct(
+            info.name.to_string(),
+            info.fields
+                .keys()
+                .zip(values.iter())
+                .map(|(k, v)| (k.to_string(), value(v)))
+                .collect(),
+        ),
+        Value::List(l) => VValue::List(l.iter().map(value).collect()),
+    }
+}
+
+#[derive(Debug, Clone, PartialEq)]
+pub struct VUnitDef {
+    /// primary name
+    pub name: String,
+    pub is_base: bool,
+    /// conversion factor to the *direct* defining unit (1 for base units)
+    pub factor: f64,
+    /// the direct defining unit as written in the `unit` statement (empty for base units)
+    pub defining: Vec<VFactor>,
+    /// (alias, accepts short prefixes, accepts long prefixes); includes the primary name
+    pub aliases: Vec<(String, bool, bool)>,
+    pub metric_prefixes: bool,
+    pub binary_prefixes: bool,
+    pub canonical_name: String,
+    pub canonical_accepts_short: bool,
+    pub canonical_accepts_long: bool,
+    pub is_abbreviation: bool,
+    pub readable_type: String,
+    /// declared/inferred type in base dimensions
+    pub type_base_repr: Vec<(String, VRational)>,
+    pub code_source_id: usize,
+}
+
+#[derive(Debug, Clone, PartialEq)]
+pub enum VResolution {
+    Identifier,
+    Unit {
+        prefix: VPrefix,
+        /// the alias that matched
+        alias: String,
+        /// primary name of the unit
+        full_name: String,
+    },
+}
+
+#[derive(Debug, Clone, PartialEq)]
+pub enum VType {
+    Never,
+    /// dimension type as a product of base dimensions
+    Dim(Vec<(String, VRational)>),
+    Bool,
+    String,
+    DateTime,
+    Fn(Vec<VType>, Box<VType>),
+    Struct(String, Vec<(String, VType)>),
+    List(Box<VType>),
+    /// a type that still contains type variables / parameters, in printed form
+    Open(String),
+}
+
+fn vtype(t: &Type) -> VType {
+    match t {
+        Type::TVar(_) | Type::TPar(_) => VType::Open(t.to_string()),
+        Type::Dimension(d) => {
+            if d.factors()
+                .iter()
+                .all(|(f, _)| matches!(f, DTypeFactor::BaseDimension(_)))
+            {
+                VType::Dim(
+                    d.to_base_representation()
+                        .iter()
+                        .map(|f| (f.0.to_string(), (*f.1.numer(), *f.1.denom())))
+                        .collect(),
+                )
+            } else {
+                VType::Open(t.to_string())
+            }
+        }
+        Type::Boolean => VType::Bool,
+        Type::String => VType::String,
+        Type::DateTime => VType::DateTime,
+        Type::Fn(params, ret) => {
+            VType::Fn(params.iter().map(vtype).collect(), Box::new(vtype(ret)))
+        }
+        Type::Struct(info) => VType::Struct(
+            info.name.to_string(),
+            info.fields
+                .iter()
+                .map(|(k, (_, t))| (k.to_string(), vtype(t)))
+                .collect(),
+        ),
+        Type::List(inner) => {
+            if matches!(**inner, Type::TVar(_)) {
+                // empty list
+                VType::List(Box::new(VType::Never))
+            } else {
+                VType::List(Box::new(vtype(inner)))
+            }
+        }
+    }
+}
+
+fn vtype_scheme(ts: &TypeScheme) -> VType {
+    match ts {
+        TypeScheme::Concrete(t) => vtype(t),
+        TypeScheme::Quantified(0, qt) => vtype(&qt.inner),
+        TypeScheme::Quantified(_, _) => VType::Open(format!("{ts:?}")),
+    }
+}
+
+/// The checker's type for a typed statement: for `let`, the type of the variable; for an
+/// expression statement the type of the expression; for unit definitions the unit's type.
+pub fn statement_type(stmt: &typed_ast::Statement) -> Option<VType> {
+    match stmt {
+        typed_ast::Statement::Expression(e) => Some(vtype_scheme(&e.get_type_scheme())),
+        typed_ast::Statement::DefineVariable(dv) => Some(vtype_scheme(&dv.type_scheme)),
+        typed_ast::Statement::DefineFunction { fn_type, .. } => Some(vtype_scheme(fn_type)),
+        typed_ast::Statement::DefineBaseUnit { type_scheme, .. } => {
+            Some(vtype_scheme(type_scheme))
+        }
+        typed_ast::Statement::DefineDerivedUnit { type_scheme, .. } => {
+            Some(vtype_scheme(type_scheme))
+        }
+        _ => None,
+    }
+}
+
+/// Kind of a typed statement, as a short tag.
+pub fn statement_kind(stmt: &typed_ast::Statement) -> &'static str {
+    match stmt {
+        typed_ast::Statement::Expression(_) => "expression",
+        typed_ast::Statement::DefineVariable(_) => "let",
+        typed_ast::Statement::DefineFunction { .. } => "fn",
+        typed_ast::Statement::DefineDimension(..) => "dimension",
+        typed_ast::Statement::DefineBaseUnit { .. } => "base_unit",
+        typed_ast::Statement::DefineDerivedUnit { .. } => "derived_unit",
+        typed_ast::Statement::ProcedureCall { .. } => "procedure",
+        typed_ast::Statement::DefineStruct(_) => "struct",
+    }
+}
+
+impl Context {
+    /// The raw (unsimplified) value currently bound to the global variable `name`
+    /// (innermost definition if it was redefined).
+    pub fn verif_raw_global(&self, name: &str) -> Option<VValue> {
+        self.interpreter.verif_global_value(name).map(value)
+    }
+
+    /// Same as [`Context::verif_raw_global`] but returns the crate's own value type.
+    pub fn verif_raw_global_value(&self, name: &str) -> Option<Value> {
+        self.interpreter.verif_global_value(name).cloned()
+    }
+
+    /// The unsimplified result of the last expression statement.
+    pub fn verif_last_result(&self) -> Option<VValue> {
+        self.interpreter.verif_last_result().map(value)
+    }
+
+    /// Direct definitions and metadata of every unit known to the session, sorted by name.
+    pub fn verif_unit_definitions(&self) -> Vec<VUnitDef> {
+        let mut out: Vec<VUnitDef> = self
+            .unit_representations()
+            .map(|(name, (_base_repr, md))| {
+                let defining_unit = self.interpreter.get_defining_unit(&name);
+                // The constant holds the unit itself (one factor, exponent 1); its identifier
+                // carries the direct definition.
+                let (is_base, factor_value, defining) = match defining_unit
+                    .and_then(|u| u.iter().next())
+                {
+                    Some(f) => {
+                        if f.unit_id.is_base() {
+                            (true, 1.0, vec![])
+                        } else {
+                            let crate::unit::BaseUnitAndFactor(def_unit, def_factor) =
+                                f.unit_id.unit_and_factor();
+                            (false, def_factor.to_f64(), factors(&def_unit))
+                        }
+                    }
+                    None => (true, f64::NAN, vec![]),
+                };
+                let type_base_repr = match &md.type_ {
+                    Type::Dimension(d) => d
+                        .to_base_representation()
+                        .iter()
+                        .map(|f| (f.0.to_string(), (*f.1.numer(), *f.1.denom())))
+                        .collect(),
+                    _ => vec![],
+                };
+                VUnitDef {
+                    name: name.to_string(),
+                    is_base,
+                    factor: factor_value,
+                    defining,
+                    aliases: md
+                        .aliases
+                        .iter()
+                        .map(|(a, ap)| (a.to_string(), ap.short, ap.long))
+                        .collect(),
+                    metric_prefixes: md.metric_prefixes,
+                    binary_prefixes: md.binary_prefixes,
+                    canonical_name: md.canonical_name.name.to_string(),
+                    canonical_accepts_short: md.canonical_name.accepts_prefix.short,
+                    canonical_accepts_long: md.canonical_name.accepts_prefix.long,
+                    is_abbreviation: md.is_abbreviation,
+                    readable_type: md.readable_type.to_string(),
+                    type_base_repr,
+                    code_source_id: md.code_source_id,
+                }
+            })
+            .collect();
+        out.sort_by(|a, b| a.name.cmp(&b.name));
+        out
+    }
+
+    /// How the session's prefix parser reads an identifier.
+    pub fn verif_resolve_identifier(&self, ident: &str) -> VResolution {
+        match self.prefix_transformer.prefix_parser.parse(ident) {
+            PrefixParserResult::Identifier(_) => VResolution::Identifier,
+            PrefixParserResult::UnitIdentifier(_, prefix, alias, full_name) => VResolution::Unit {
+                prefix: prefix.into(),
+                alias: alias.to_string(),
+                full_name: full_name.to_string(),
+            },
+        }
+    }
+
+    /// Base-dimension representation of a named dimension, if it exists.
+    pub fn verif_dimension_base_repr(&self, name: &str) -> Option<Vec<(String, VRational)>> {
+        self.dimension_registry()
+            .get_base_representation_for_name(name)
+            .ok()
+            .map(|br| {
+                br.iter()
+                    .map(|f| (f.0.to_string(), (*f.1.numer(), *f.1.denom())))
+                    .collect()
+            })
+    }
+}
+
+// ---------------------------------------------------------------------------------------------
+// Parser: canonical S-expression of the untyped syntax tree
+// ---------------------------------------------------------------------------------------------
+
+fn sexpr_expr(e: &ast::Expression, out: &mut String) {
+    use ast::Expression as E;
+    match e {
+        E::Scalar(_, n) => {
+            out.push_str(&format!("(num {:?})", n.to_f64()));
+        }
+        E::Identifier(_, name) => {
+            out.push_str(&format!("(id {name})"));
+        }
+        E::UnitIdentifier { full_name, .. } => {
+            out.push_str(&format!("(unit {full_name})"));
+        }
+        E::TypedHole(_) => out.push_str("(hole)"),
+        E::UnaryOperator { op, expr, .. } => {
+            match op {
+                ast::UnaryOperator::Factorial(n) => out.push_str(&format!("(fact{} ", n.get())),
+                ast::UnaryOperator::Negate => out.push_str("(neg "),
+                ast::UnaryOperator::LogicalNeg => out.push_str("(not "),
+            }
+            sexpr_expr(expr, out);
+            out.push(')');
+        }
+        E::BinaryOperator { op, lhs, rhs, .. } => {
+            use ast::BinaryOperator as B;
+            let name = match op {
+                B::Add => "add",
+                B::Sub => "sub",
+                B::Mul => "mul",
+                B::Div => "div",
+                B::Power => "pow",
+                B::ConvertTo => "conv",
+                B::LessThan => "lt",
+                B::GreaterThan => "gt",
+                B::LessOrEqual => "le",
+                B::GreaterOrEqual => "ge",
+                B::Equal => "eq",
+                B::NotEqual => "ne",
+                B::LogicalAnd => "and",
+                B::LogicalOr => "or",
+            };
+            out.push('(');
+            out.push_str(name);
+            out.push(' ');
+            sexpr_expr(lhs, out);
+            out.push(' ');
+            sexpr_expr(rhs, out);
+            out.push(')');
+        }
+        E::FunctionCall { callable, args, .. } => {
+            out.push_str("(call ");
+            sexpr_expr(callable, out);
+            for a in args {
+                out.push(' ');
+                sexpr_expr(a, out);
+            }
+            out.push(')');
+        }
+        E::Boolean(_, b) => out.push_str(&format!("(bool {b})")),
+        E::String(_, parts) => {
+            out.push_str("(str");
+            for p in parts {
+                match p {
+                    ast::StringPart::Fixed(s) => out.push_str(&format!(" {:?}", s.as_str())),
+                    ast::StringPart::Interpolation {
+                        expr,
+                        format_specifiers,
+                        ..
+                    } => {
+                        out.push_str(" (interp ");
+                        sexpr_expr(expr, out);
+                        if let Some(f) = format_specifiers {
+                            out.push_str(&format!(" {f:?}"));
+                        }
+                        out.push(')');
+                    }
+                }
+            }
+            out.push(')');
+        }
+        E::Condition {
+            condition,
+            then_expr,
+            else_expr,
+            ..
+        } => {
+            out.push_str("(if ");
+            sexpr_expr(condition, out);
+            out.push(' ');
+            sexpr_expr(then_expr, out);
+            out.push(' ');
+            sexpr_expr(else_expr, out);
+            out.push(')');
+        }
+        E::InstantiateStruct { name, fields, .. } => {
+            out.push_str(&format!("(struct {name}"));
+            for (_, fname, fexpr) in fields {
+                out.push_str(&format!(" ({fname} "));
+                sexpr_expr(fexpr, out);
+                out.push(')');
+            }
+            out.push(')');
+        }
+        E::AccessField {
+            expr, field_name, ..
+        } => {
+            out.push_str("(field ");
+            sexpr_expr(expr, out);
+            out.push_str(&format!(" {field_name})"));
+        }
+        E::List(_, elems) => {
+            out.push_str("(list");
+            for e in elems {
+                out.push(' ');
+                sexpr_expr(e, out);
+            }
+            out.push(')');
+        }
+    }
+}
+
+/// Parses `input` with the crate's tokenizer and parser. `Ok` holds one canonical
+/// S-expression per statement (expression statements are rendered completely, other
+/// statements as `(stmt <kind> …)` with their contained expressions); `Err` holds the number
+/// of parse errors.
+pub fn parse_sexpr(input: &str) -> Result<Vec<String>, usize> {
+    match crate::parser::parse(input, 0) {
+        Ok(statements) => Ok(statements
+            .iter()
+            .map(|s| {
+                let mut out = String::new();
+                match s {
+                    ast::Statement::Expression(e) => sexpr_expr(e, &mut out),
+                    ast::Statement::DefineVariable(dv) => {
+                        out.push_str(&format!("(stmt let {} ", dv.identifier));
+                        sexpr_expr(&dv.expr, &mut out);
+                        out.push(')');
+                    }
+                    ast::Statement::ProcedureCall(_, kind, args) => {
+                        out.push_str(&format!("(stmt proc {}", kind.name()));
+                        for a in args {
+                            out.push(' ');
+                            sexpr_expr(a, &mut out);
+                        }
+                        out.push(')');
+                    }
+                    ast::Statement::DefineFunction { .. } => out.push_str("(stmt fn)"),
+                    ast::Statement::DefineDimension(..) => out.push_str("(stmt dimension)"),
+                    ast::Statement::DefineBaseUnit(..) => out.push_str("(stmt base_unit)"),
+                    ast::Statement::DefineDerivedUnit { .. } => {
+                        out.push_str("(stmt derived_unit)")
+                    }
+                    ast::Statement::ModuleImport(..) => out.push_str("(stmt use)"),
+                    ast::Statement::DefineStruct { .. } => out.push_str("(stmt struct)"),
+                }
+                out
+            })
+            .collect()),
+        Err((_, errors)) => Err(errors.len().max(1)),
+    }
+}
